@@ -327,7 +327,9 @@ def run_impl(steps: list[dict]) -> list:
                 out.append(enc_val(impl_query(slots[st["c"]], st)))
             elif op == "fresh":
                 src = slots[st["src"]]
-                slots[st["dst"]] = Converter([r.model_copy(deep=True) for r in src.records], delimiter=src.delimiter)
+                extra = [dec_record(r) for r in st.get("extra", [])]
+                slots[st["dst"]] = Converter([r.model_copy(deep=True) for r in src.records] + extra,
+                                             delimiter=src.delimiter)
                 out.append(None)
             elif op == "dups":
                 import curies.api as A
@@ -360,8 +362,8 @@ def run_impl(steps: list[dict]) -> list:
             elif op == "upgrade":
                 out.append(enc_val(list(curies.upgrade_prefix_map({uncps(k): uncps(v) for k, v in st["data"]}))))
             else:
-                raise RuntimeError(f"unknown op {op}")
-        except RuntimeError:
+                raise InvalidCase(f"unknown op {op}")
+        except InvalidCase:
             raise
         except Exception as e:  # noqa: BLE001 - exceptions are observations
             out.append(enc_exc(e))
@@ -383,7 +385,7 @@ def program_strings(steps) -> set[str]:
         out.update(uncps(x) for x in r.get("us", []))
 
     for st in steps:
-        for r in st.get("records", []):
+        for r in st.get("records", []) + st.get("extra", []):
             rec_strings(r)
         if "record" in st:
             rec_strings(st["record"])
@@ -457,7 +459,8 @@ def show_program(steps) -> list[str]:
             out.append(f"c{st['dst']} = {op}(c{st['src']}, "
                        f"{ {uncps(k): uncps(v) for k, v in st['mapping']} })")
         elif op == "fresh":
-            out.append(f"c{st['dst']} = Converter(copy of c{st['src']}.records, delimiter=c{st['src']}.delimiter)")
+            out.append(f"c{st['dst']} = Converter(copies of c{st['src']}.records + [{'; '.join(show_record(r) for r in st.get('extra', []))}], "
+                       f"delimiter=c{st['src']}.delimiter)")
         elif op == "dups":
             out.append(f"duplicates listed by Converter([{'; '.join(show_record(r) for r in st['records'])}])")
         elif op in ("load_pm", "load_reverse", "load_upgrade", "upgrade"):
